@@ -18,6 +18,7 @@ HSets == {<<"h1">>, <<"h2">>, <<"h1", "h2">>, <<>>}
 MethodName(i) == "m" \o ToString(i)
 RM(i, hs, on, pay, data) ==
     [name |-> MethodName(i), handlers |-> hs, on |-> on, data |-> data, payload |-> pay,
+     spell |-> "a",      \* how the arguments of a two-argument data attribute are ordered in the source ("b": `opt` first)
      outcome |-> IF i = 2 THEN "err" ELSE "ok"]
 Choice == HSets \X Outcomes \X {"raw", "t2"}
 TablesOfLen(n) == {[i \in 1..n |-> RM(i, c[i][1], c[i][2], c[i][3], "none")] : c \in [1..n -> Choice]}
@@ -45,6 +46,14 @@ CompiledIdx == {CandidateSeq[k] : k \in {j \in 1..Len(CandidateSeq) : j % Stride
 DataModes == <<"plain", "opt", "raw", "rawopt", "inst", "instopt", "none">>
 DataProg(i) == [id |-> "D" \o ToString(i), family |-> "data",
                 methods |-> << [RM(1, <<"h1">>, "success", "raw", DataModes[i]) EXCEPT !.name = "on_ok"] >>]
+(* the same modes with the attribute's arguments written in the other order: `#[sv::data(opt, raw)]`, `#[sv::data(opt, instantiate)]` *)
+DataProgB(i) == [id |-> "DB" \o ToString(i), family |-> "data",
+                 methods |-> << [RM(1, <<"h1">>, "success", "raw", DataModes[i]) EXCEPT !.name = "on_ok", !.spell = "b"] >>]
+(* two methods with complementary outcomes that share *two* handler names *)
+SharedTwo(errFirst) ==
+    LET s == [RM(1, <<"h1", "h2">>, "success", "t2", "none") EXCEPT !.name = "on_ok"]
+        e == [RM(2, <<"h1", "h2">>, "error", "t2", "none") EXCEPT !.name = "on_err"]
+    IN [id |-> IF errFirst THEN "SHe" ELSE "SHs", family |-> "data", methods |-> IF errFirst THEN <<e, s>> ELSE <<s, e>>]
 DataProgMerged(i, errFirst) ==
     LET s == [RM(1, <<"h1">>, "success", "t2", DataModes[i]) EXCEPT !.name = "on_ok"]
         e == [RM(2, <<"h1">>, "error", "t2", "none") EXCEPT !.name = "on_err"]
@@ -74,6 +83,8 @@ CompiledProgs ==
       \cup {[id |-> "T" \o ToString(i) \o "r", family |-> "compiled", methods |-> Reverse(TableSeq[i])] :
                  i \in {j \in CompiledIdx : Len(TableSeq[j]) > 1}}
       \cup {DataProg(i) : i \in 1..Len(DataModes)}
+      \cup {DataProgB(i) : i \in {4, 6}}
+      \cup {SharedTwo(b) : b \in BOOLEAN}
       \cup {DataProgMerged(i, b) : i \in {1, 3, 5}, b \in BOOLEAN}
       \cup {MixProg(i) : i \in 1..4}
       \cup {NamedPayloadProg(i) : i \in 1..3}
